@@ -69,6 +69,11 @@ def build(B, spec, name="x", relabel=()):
     for extra in spec.get("extra_coords", []):
         d0 = extra
         da = da.assign_coords({f"aux_{d0}": (d0, [f"k{i}" for i in range(byname[d0][1])])})
+    for (d0, i0) in spec.get("nan_at", []):
+        # a fully missing label along d0 (the Sanitizer removes it and puts it back)
+        m = xr.DataArray(np.arange(byname[d0][1]) == i0, dims=(d0,), coords={d0: da[d0]})
+        da = da.where(~m)
+        da.name = "v_" + name
     for new, parts in spec.get("stack", {}).items():
         da = da.stack({new: parts})
     return da
@@ -249,6 +254,10 @@ def layouts(tier):
     out["DA|multiindex-sample"] = dict(_da([("t1", 2, "str"), ("t2", 2, "int")], [("x", 2, "int")], stack={"time": ("t1", "t2")}), sample_dims=["time"])
     out["DA|multiindex-feature"] = dict(_da([("time", 3, "int")], [("lat", 2, "int"), ("lon", 2, "str")], stack={"space": ("lat", "lon")}), sample_dims=["time"])
     out["DA|dims-named-sample-feature"] = _da([("sample", 3, "int")], [("feature", 2, "int")])
+    # fully missing feature / sample on axes whose labels are not ascending
+    out["DA|1s1f|float-unsorted|missing feature"] = _da([("time", 3, "int")], [("x", 3, "float-unsorted")], nan_at=[("x", 1)])
+    out["DA|1s1f|str|missing feature"] = _da([("time", 4, "str")], [("x", 3, "str")], nan_at=[("x", 0)])
+    out["DA|1s2f|missing cell column"] = _da([("time", 3, "int")], [("lat", 2, "float-unsorted"), ("lon", 2, "str")], nan_at=[("lon", 0)])
     # Dataset
     v1 = {"dims": [("time", 3, "int"), ("x", 2, "str")]}
     v2 = {"dims": [("time", 3, "int"), ("x", 2, "str")], "order": ["x", "time"]}
